@@ -519,6 +519,8 @@ def gen_c11(rnd, syms, tier):
                     kw['light'] = rnd_rgb(rnd) if fmt == 'ppm' or rnd.random() < 0.7 else None
                 s, b = pick_scale_border(rnd, n, 400 if fmt == 'ppm' else 600, scales=None if tier != 'quick' else [1, 1, 2, 3])
                 add_sb(kw, s, b, rnd, float_ok=False)
+                if fmt == 'ppm' and v % 3 == 0:
+                    kw['scale'] = kw.get('scale', 1) + rnd.choice([0.5, 0.25, 0.999])     # truncated by the iterator AND in the header
                 add(v, fmt, kw, f'colourful:{fmt}', rnd.randrange(2))
             # two-tone maps that are NOT uniform per dark/light class
             if rnd.random() < 0.5:
